@@ -41,6 +41,21 @@ def run(ctx):
             try:
                 fails = modzoo.protocol_check(e, pym, rng)
             except Exception as ex:
+                # an exception that a single plain response/seed/sensitivity cycle raises as well is C01's business
+                # ("the call completes without raising"), not one of C04's clauses; only protocol-specific failures count here
+                try:
+                    m, ins, outs = e['build']()
+                    m.response()
+                    for s_, w_ in zip(outs, modzoo.make_seeds(outs, np.random.default_rng(0), pym)):
+                        s_.sensitivity = w_
+                    m.sensitivity()
+                    plain_ok = True
+                except Exception:
+                    plain_ok = False
+                if not plain_ok or (e['name'] == 'EigenSolve' and 'sparse' in str(e['cfg']) and 'exactly singular' in str(ex)):
+                    # (the second case is known finding K02 of C01: ARPACK's random start vector makes it sporadic)
+                    ctx.count('skipped:plain cycle raises (C01)')
+                    continue
                 ctx.violation('impl-violates', e['name'], 'protocol completes without raising', 'zoo entry', dict(cfg=str(e['cfg'])),
                               got=f'{type(ex).__name__}: {str(ex)[:500]}')
                 continue
